@@ -7,6 +7,10 @@
   * `C09_lockset`: every method of a shared structure that touches a guarded field takes the mutex that guards it
     (the guard map and the three exemptions are spelled out in `Model/Locks.lean`);
   * `C09_grid_locked`: every dagaz handler that reaches the session's grid holds the state's mutex;
+  * `C09_writes_hold_the_write_lock`: every method that writes a guarded field (assigns, increments, deletes from it,
+    directly or through an index, a sub-field or a local bound to it) holds the guarding mutex in write mode;
+    `C09_grid_readers_write_nothing`: the grid methods reached from the dagaz handlers that hold the state's mutex
+    in read mode write no field of the grid, themselves or through the grid methods they call;
   * `C09_lock_order`: the nesting of lock acquisitions inside the methods has no cycle - the only nesting is
     `subscriptionMutex` then `mutex` in the component store (`C09_nesting`); `C09_no_reentrant`: no method takes a
     mutex and then calls, on the same receiver, a method that takes it again (a read-lock re-entrancy deadlocks as
@@ -24,6 +28,13 @@ namespace Hagall.Locks
 
 theorem C09_lockset : unguarded Hagall.Gen.lockFacts Hagall.Gen.lockOps = [] := by decide
 theorem C09_grid_locked : gridUnguarded Hagall.Gen.lockOps = [] := by decide
+/-- every method that writes a guarded field holds its mutex in write mode -/
+theorem C09_writes_hold_the_write_lock : writesWithoutWriteLock Hagall.Gen.lockFacts Hagall.Gen.writeFacts = [] := by decide
+/-- the grid methods reached from handlers that hold the state's mutex in read mode write nothing of the grid -/
+theorem C09_grid_readers_write_nothing :
+    gridWritersUnderReadLock Hagall.Gen.lockFacts Hagall.Gen.writeFacts Hagall.Gen.selfCalls = [] := by decide
+/-- the premise is not empty: the sample handler, which holds the write lock, does reach a method that writes the grid -/
+example : gridWrites Hagall.Gen.writeFacts Hagall.Gen.selfCalls "InsertQuad" ≠ [] := by decide
 theorem C09_nesting : allEdges Hagall.Gen.lockOps =
     [("EntityComponentStore.subscriptionMutex", "EntityComponentStore.mutex")] := by decide
 theorem C09_lock_order : cycles Hagall.Gen.lockOps = [] := by decide
